@@ -224,7 +224,12 @@ def install_stubs(calls, rb, patches):
                     dyn = front.id_cls(rb.ev(cid).as_long())
                     if dyn:
                         clsq = dyn
-                raise front.cls_obj(clsq)('replay stub: model says %s raises here' % qual)
+                exc_cls = front.cls_obj(clsq)
+                if not (isinstance(exc_cls, type) and issubclass(exc_cls, BaseException)):
+                    # the model picked a class id that is not an exception class (any-exception clause): never instantiate it
+                    # (a constructor with side effects once created files named after the message)
+                    raise Divergence('model names %s, which is not an exception class, as raised by %s' % (clsq, qual))
+                raise exc_cls('replay stub: model says %s raises here' % qual)
             return rb.val(rec[2], rec[3])
         return stub
 
